@@ -1576,3 +1576,66 @@ M("s2-i32-default-skips-tuple-elements", "C05", "fire S2", "src/check.rs",
                                         constrain_to_i32(expr)?;
                                     }
                                 }""", "let mut t = (1, 2): the tuple type says i32 but the literals stay unconstrained")
+
+# ---------------------------------------------------------------- seventh seed batch as mutants
+M("o9-distribution-wrong-operand", "C04", "fire O9", "src/circuit.rs",
+  """                        self.get_cached(&BuilderGate::And(x, y1)),
+                        self.get_cached(&BuilderGate::And(x, y2)),""",
+  """                        self.get_cached(&BuilderGate::And(y1, y)),
+                        self.get_cached(&BuilderGate::And(y2, y)),""", "seed C01-c: x & (y1 ^ y2) looks up y1 & y and y2 & y")
+M("o10-factoring-inner-uses-shared", "C04", "fire O10", "src/circuit.rs",
+  """                        if a1 == b1 {
+                            let a2_xor_b2 = self.push_gate(BuilderGate::Xor(a2, b2));
+                            return self.push_gate(BuilderGate::And(a1, a2_xor_b2));""",
+  """                        if a1 == b1 {
+                            let a2_xor_b2 = self.push_gate(BuilderGate::Xor(a1, b2));
+                            return self.push_gate(BuilderGate::And(a1, a2_xor_b2));""", "(a&b)^(a&c) becomes a & (a ^ c)")
+M("o10-pairing-row-duplicated", "C04", "fire O10", "src/circuit.rs",
+  """                    for (a1, a2, b1, b2) in [
+                        (x1, x2, y1, y2),
+                        (x1, x2, y2, y1),
+                        (x2, x1, y1, y2),
+                        (x2, x1, y2, y1),
+                    ] {
+                        if a1 == b1 {
+                            let a2_xor_b2""",
+  """                    for (a1, a2, b1, b2) in [
+                        (x1, x2, y1, y2),
+                        (x1, x2, y2, y1),
+                        (x2, x1, y1, y2),
+                        (x2, x2, y2, y1),
+                    ] {
+                        if a1 == b1 {
+                            let a2_xor_b2""", "last pairing row names x2 twice")
+M("a4-mul-by-minus-one-identity", "C03", "fire A4", "src/compile.rs",
+  """                        if n == 0 {
+                            continue;
+                        }
+                        if n < bits {""",
+  """                        if n == 0 {
+                            continue;
+                        }
+                        if n == 1 {
+                            return y.compile(prg, env, circuit);
+                        }
+                        if n < bits {""", "seed C03-d: x * -1 returns x")
+M("a4-quiet-mul-by-one-fast-path", "C03", "quiet", "src/compile.rs",
+  """                        if n == 0 {
+                            continue;
+                        }
+                        if n < bits {""",
+  """                        if n == 0 {
+                            continue;
+                        }
+                        if n == 1 && !is_neg {
+                            return y.compile(prg, env, circuit);
+                        }
+                        if n < bits {""", "behaviour-preserving fast path for x * 1")
+M("r8-dead-wires-skipped", "C10", "fire R8", "src/register_circuit.rs",
+  """        for (gate_id, w) in self.circ.wires().enumerate() {
+            let inst = match w {""",
+  """        for (gate_id, w) in self.circ.wires().enumerate() {
+            if !self.last_used.contains_key(&gate_id) {
+                continue;
+            }
+            let inst = match w {""", "seed C10-d: wires that nobody reads get no instruction (and are not counted)")
